@@ -282,6 +282,17 @@ def run(ctx):
     texts = ["%s %s %s" % (d % b, u, u) for (d, u) in shapes for b in bodies]
     b, sk = run_stage(ctx, texts, "empty-bodies", with_text=False)
     ctx.stage("empty-bodies", texts=len(texts), rejected=b, outside_claim=sk)
+    # ---- builtins that call back into the program (apply, map, for-each, the folds), handed procedures that assign or
+    # define global variables, redefine the very builtin that is running, call it again, or fail - in tail and non-tail position
+    defs = "(define n 0) (define (bump! k) (set! n (+ n k)) n) (define (redef! k) (define fresh-global k) (set! n k) k) "
+    callers = ["(apply %s '(2))", "(apply %s 1 '())", "(map %s '(1 2))", "(for-each %s '(1 2))", "(fold-left (lambda (a x) (%s x)) 0 '(1 2))",
+               "(fold-right (lambda (x a) (%s x)) 0 '(1 2))", "(apply apply (list %s '(3)))", "(map (lambda (q) (apply %s (list q))) '(1 2))"]
+    procs = ["bump!", "redef!", "(lambda (k) (set! apply car) k)", "(lambda (k) (set! map 1) (set! for-each 2) k)", "(lambda (k) (define apply 1) k)",
+             "(lambda (k) (set! n (apply + (list k n))) n)", "(lambda (k) (car k))", "(lambda (k) (set! bump! redef!) (bump! k))"]
+    ctxs = ["%s", "(+ 1 (car (list %s)))", "(list %s n)", "(let ((r %s)) (list r n))", "(define (go) %s) (go)", "(if #t %s 0)"]
+    texts = [defs + (c % (k % pr)) for k in callers for pr in procs for c in (ctxs if tier != "quick" else ctxs[:3])]
+    b, sk = run_stage(ctx, texts, "reentrancy", with_text=False)
+    ctx.stage("reentrancy", texts=len(texts), rejected=b, outside_claim=sk)
     # ---- every builtin on boundary operands: the extreme exact integers, ratios with extreme components, zero of both
     # signs, huge and tiny reals, and a few non-numbers - a value or a reported error, never a crash
     nums = ["-2147483648", "-2147483647", "-1", "0", "1", "2", "2147483647", "65536", "46341", "-1/2", "1/2147483647", "-2147483648/3", "2147483647/2",
